@@ -126,7 +126,7 @@ def closer_sweep(chk, repo, it, tier):
 def check(chk, repo, tier):
     chk.trusted_base += ["CPython ast", "vystatic.pe interpreter subset"]
     it = Interp(repo)
-    lp = LexProbe(repo, it)
+    lp = LexProbe(repo, it, thorough=(tier == "thorough"))
     fr = Frames(lp)
     LF = repo.mod("lexer").rel
     # ---- lexer laws on the class-exhaustive probe model ----------------------------
